@@ -10,7 +10,7 @@ CFG = {
                           "RpmVerif.C04.readside_total", "RpmVerif.C04.readerNew_total", "RpmVerif.C04.iterate_total", "RpmVerif.C04.keyIds_total",
                           "RpmVerif.C04.iterator_no_runaway", "RpmVerif.C04.collectMem_total"],
     "trivial_branches": [],
-    "rule": "every case runs the whole read side (Package::parse, PackageMetadata::parse, all 40 accessors, verify_digests, verify_signature with a "
+    "rule": "every case runs the whole read side (Package::parse, PackageMetadata::parse, all 40 accessors, the Display / Debug impls of Header, IndexEntry, IndexData, Lead and PackageMetadata on the parsed values (stage fmt, into a discarding sink), verify_digests, verify_signature with a "
             "rejecting verifier, signature_key_ids, files() iteration on uncompressed payloads) in a forked child with a panic hook, RLIMIT_AS = 3 GiB, "
             "a counting allocator flagging any single request above 64 MiB + 16·len, and a Debug-level logger installed; on uncompressed payloads files() is also "
             "drained past error items like collect() does and the number / classes / contents of the items are compared with the state-machine model "
